@@ -339,9 +339,9 @@ int main(int argc, char **argv) {
   // a command whose callback ends the session itself (Session::endSession), alone / followed by another command in the same segment / by a second segment / by EOF
   for (int by : {0, (int)F_BYSTANDER}) {
     for (auto &segs : std::vector<std::vector<std::string>>{{"q\r\n"}, {"q\r\np 1\r\n"}, {"q\r\n", "p 1\r\n"}, {"q\r\nq\r\n"}, {"q\r\nexit\r\n"}, {"q;exit\r\n"}, {"q;q\r\n"}})
-      // DEFECT CANDIDATE (default off, C13_NODE_END_THEN_EXIT=1 enables): a command that ends the session followed by 'exit' in the same segment makes the
+      // (was a defect candidate; repaired in /repo, so ON by default; C13_NODE_END_THEN_EXIT=0 disables): a command that ends the session followed by 'exit' in the same segment makes the
       // deferred exit closure call Connection::endSession on a session the front end has already dropped -> Telnetd/TcpRpc::Impl::endSession throws map::at in the loop
-      if (segs[0].find("exit") != std::string::npos && !(getenv("C13_NODE_END_THEN_EXIT") && atoi(getenv("C13_NODE_END_THEN_EXIT")))) continue; else
+      if (segs[0].find("exit") != std::string::npos && (getenv("C13_NODE_END_THEN_EXIT") && !atoi(getenv("C13_NODE_END_THEN_EXIT")))) continue; else
       if (sw.mine()) { Case c; c.family = by ? "node-ends-session-second-client" : "node-ends-session"; c.flags = F_ENDS | by; c.segs = segs; sw.eval(c); }
     if (sw.mine()) { Case c; c.family = by ? "node-ends-session-second-client" : "node-ends-session"; c.flags = F_ENDS | F_EOF_WITH_LAST | by; c.segs = {"q\r\n"}; sw.eval(c); }
   }
